@@ -141,6 +141,6 @@ func marshalEncodeOps(r *evid.Run) {
 				rec(2)
 			}
 		})
-		r.Bound("MarshalEncode ops: option set %q: all %d^%d sequences over 6 token ops and 14 MarshalEncode ops", o.Name, k, d)
+		r.Bound("MarshalEncode ops: option set %q: all %d^%d sequences over 6 token ops, 14 MarshalEncode ops and 6 AvailableBuffer values", o.Name, k, d)
 	}
 }
